@@ -24,7 +24,7 @@ from elementpath.exceptions import xpath_error, ElementPathError, ElementPathVal
 from elementpath.namespaces import XSD_ANY_TYPE, XSD_ANY_SIMPLE_TYPE, XSD_ANY_ATOMIC_TYPE
 from elementpath.namespaces import XSD_NAMESPACE, XPATH_MATH_FUNCTIONS_NAMESPACE
 from elementpath.datatypes import AnyAtomicType, AbstractDateTime, AnyURI, \
-    DayTimeDuration, Date, DateTime, DateTimeStamp, DecimalProxy, Duration, Integer, QName, \
+    DayTimeDuration, Date, DateTime, DateTimeStamp, DecimalProxy, Duration, Float, Integer, QName, \
     Timezone, UntypedAtomic, AbstractQName, AbstractBinary
 from elementpath.tdop import Token, MultiLabel
 from elementpath.helpers import ordinal, get_double
@@ -886,8 +886,10 @@ class XPathToken(Token[ta.XPathTokenType]):
                 if isinstance(v, (UntypedAtomic, AnyURI)):
                     return token.cast(v)
                 elif isinstance(v, (float, DecimalProxy)):
-                    if type_name in ('double', 'float'):
+                    if type_name == 'double':
                         return token.cast(v)
+                    elif type_name == 'float' and (isinstance(v, Float) or not isinstance(v, float)):
+                        return token.cast(v)  # xs:decimal is promoted to xs:float, xs:double is not
             except (ValueError, TypeError):
                 return v
             else:
